@@ -518,7 +518,11 @@ class Verifier:
                 raise OutOfReach("requires clause is not boolean")
             cx.assume(t)
         for stmt in getattr(contract, "setup", ()):
-            self.exec_stmts(stmt, vars_)
+            try:
+                self.exec_stmts(stmt, vars_)
+            except PyRaise:
+                # the setup (building the input from the reference) failed: this input is outside the precondition
+                raise PathAbort()
         return vars_
 
     def _run_outcome(self, expr, vars_):
